@@ -88,3 +88,23 @@ func (v *VerifTransports) Len() int {
 
 // Reap runs the reaper once (it re-arms its timer, which never fires within a run).
 func (v *VerifTransports) Reap() { v.t.reaper() }
+
+// Age moves every lastUsed instant back by d (virtual time for the reaper).
+func (v *VerifTransports) Age(d time.Duration) {
+	v.t.transportsMutex.Lock()
+	defer v.t.transportsMutex.Unlock()
+	for _, tr := range v.t.transports {
+		tr.lastUsed.Store(tr.lastUsed.Load().(time.Time).Add(-d))
+	}
+}
+
+// Snapshot is the transports map (name -> transport) read under the lock.
+func (v *VerifTransports) Snapshot() map[string]http.RoundTripper {
+	v.t.transportsMutex.Lock()
+	defer v.t.transportsMutex.Unlock()
+	out := map[string]http.RoundTripper{}
+	for n, tr := range v.t.transports {
+		out[n] = tr
+	}
+	return out
+}
